@@ -1,10 +1,205 @@
 import GormModel.Drv.Util
+import GormModel.Model.StmtCache
 open Lean
 namespace Gorm.Drv
+open Gorm.SC
 
-/-- line-protocol handler for C14 (ops are JSON arrays `[opname, args…]`); returns `none` for ops it does not own -/
+/-!
+  `["sc.check", nV, nQ, threads, trace, final]` — trace inclusion of one forced schedule of the REAL cache in the model.
+
+  The harness can gate three kinds of events (goroutine start, return of a pool-level PrepareContext, return of a
+  driver-level statement execution); everything else (lock sections, channel wake-ups, closer goroutines) runs
+  freely between two gates.  The validator therefore keeps the SET of model states consistent with what was
+  observed so far: after every gated step it closes the set under all interleavings of the un-gated model steps
+  (`closure`, every maximal run), keeps the states whose parked-goroutine set equals the observed one, and at the
+  end requires a state with exactly the observed results / closed-handle flags / PrepareContext counts.
+-/
+
+def pcName : Pc → String
+  | .init => "init" | .missed => "missed" | .waiting _ => "waiting" | .preparing _ => "preparing"
+  | .storing _ _ => "storing" | .failing _ => "failing" | .closingOk _ _ => "closingOk"
+  | .closingErr _ => "closingErr" | .ready _ _ => "ready" | .using _ _ => "using"
+  | .evicting _ _ => "evicting" | .fin _ => "fin"
+
+def resName : Res → String
+  | .rows => "rows" | .prepErr => "prepErr" | .useErr => "useErr" | .badConn => "badConn"
+  | .invalidDB => "invalidDB" | .stmtClosed => "stmtClosed" | .nilStmt => "nilStmt" | .done => "done"
+
+def pcKey : Pc → String
+  | .waiting e => s!"w{e}" | .preparing e => s!"p{e}" | .storing e h => s!"s{e}.{h}" | .failing e => s!"f{e}"
+  | .closingOk e h => s!"co{e}.{h}" | .closingErr e => s!"ce{e}" | .ready e h => s!"r{e}.{h}"
+  | .using e h => s!"u{e}.{h}" | .evicting e h => s!"ev{e}.{h}" | .fin r => "F" ++ resName r
+  | .init => "i" | .missed => "m"
+
+def optKey : Option Nat → String
+  | some n => toString n
+  | none => "-"
+
+def prepTotal (s : St) (q : Nat) : Nat :=
+  s.log.countP (fun ev => match ev with | .prep _ q' _ _ => q' == q | _ => false)
+
+def keyOf (nQ : Nat) (s : St) : String :=
+  let th := (List.range s.nT).map fun t => pcKey (s.threads t).pc
+  let en := (List.range s.nE).map fun e =>
+    let x := s.entries e
+    s!"{x.text},{x.mapId},{x.tx},{x.prepared},{x.err},{optKey x.handle},{x.closeReq},{x.closeDone}"
+  let hs := (List.range s.nH).map fun h =>
+    let x := s.handles h
+    s!"{x.tx},{x.thr},{x.entry},{x.closed},{x.closeReq}"
+  let ms := (List.range s.nM).map fun m => (List.range nQ).map fun q => optKey (s.maps m q)
+  let vs := (List.range s.nV).map fun v => optKey (s.views v)
+  let pc := (List.range nQ).map fun q => prepTotal s q
+  s!"{th}|{en}|{hs}|{ms}|{vs}|{pc}|{foreignRemovals s}"
+
+def isGate : Pc → Bool
+  | .preparing _ | .using _ _ => true
+  | _ => false
+
+/-- enabled un-gated transitions with a label (for branch coverage) -/
+def freeSteps (s : St) (started : List Nat) : List (String × St) :=
+  let th := started.filterMap fun t =>
+    if isGate (s.threads t).pc then none
+    else (act s (.thr t .ok)).map fun s' => (pcName (s.threads t).pc ++ "→" ++ pcName (s'.threads t).pc, s')
+  let ce := (List.range s.nE).filterMap fun e => (act s (.closeE e)).map fun s' => ("closeE", s')
+  let ch := (List.range s.nH).filterMap fun h => (act s (.closeH h)).map fun s' => ("closeH", s')
+  th ++ ce ++ ch
+
+/-- all states reachable by maximal runs of un-gated steps -/
+partial def closure (nQ : Nat) (started : List Nat) (work : List St) (seen : List String)
+    (out : List St) (labels : List String) : List St × List String :=
+  match work with
+  | [] => (out, labels)
+  | s :: rest =>
+    let k := keyOf nQ s
+    if seen.contains k then closure nQ started rest seen out labels
+    else
+      let nx := freeSteps s started
+      let labels := nx.foldl (fun acc p => if acc.contains p.1 then acc else p.1 :: acc) labels
+      if nx.isEmpty then closure nQ started rest (k :: seen) (s :: out) labels
+      else closure nQ started (nx.map (·.2) ++ rest) (k :: seen) out labels
+
+def gatesOf (s : St) (started : List Nat) : List (Nat × String) :=
+  (List.range s.nT).filterMap fun t =>
+    if started.contains t then
+      match (s.threads t).pc with
+      | .preparing _ => some (t, "P")
+      | .using _ _ => some (t, "U")
+      | _ => none
+    else none
+
+def parseAns (s : String) : Option Ans :=
+  match s with
+  | "ok" => some .ok | "err" => some .err | "bad" => some .bad | _ => none
+
+def parseOp (j : Json) : Option Op := do
+  let a ← jArr? j
+  let k ← jStr? (arg a 0)
+  let v ← jNat? (arg a 1)
+  let q ← jNat? (arg a 2)
+  match k with
+  | "use" => some (.use v q false)
+  | "tx" => some (.use v q true)
+  | "reset" => some (.reset v)
+  | "close" => some (.close v)
+  | _ => none
+
+def parseGates (j : Json) : Option (List (Nat × String)) := do
+  let a ← jArr? j
+  a.toList.mapM fun g => do
+    let ga ← jArr? g
+    some (← jNat? (arg ga 0), ← jStr? (arg ga 1))
+
+structure Step where
+  kind : String
+  t : Nat
+  ans : Ans
+  gates : List (Nat × String)
+
+def parseStep (j : Json) : Option Step := do
+  let a ← jArr? j
+  some { kind := ← jStr? (arg a 0), t := ← jNat? (arg a 1), ans := ← parseAns (← jStr? (arg a 2)),
+         gates := ← parseGates (arg a 3) }
+
+def resultsOf (s : St) : List String :=
+  (List.range s.nT).map fun t => match (s.threads t).pc with | .fin r => resName r | pc => "@" ++ pcName pc
+
+def closedOf (s : St) : List Bool := (List.range s.nH).map fun h => (s.handles h).closed
+
+def finalJ (nQ : Nat) (s : St) : Json :=
+  Json.mkObj [("res", strListJ (resultsOf s)), ("closed", Json.arr ((closedOf s).map Json.bool).toArray),
+              ("preps", natListJ ((List.range nQ).map (prepTotal s)))]
+
+def gatesJ (g : List (Nat × String)) : Json :=
+  Json.arr (g.map fun p => Json.arr #[natJ p.1, Json.str p.2]).toArray
+
+/-- replay the trace on the state set -/
+def replay (nQ : Nat) (steps : List Step) (states : List St) (started : List Nat) (labels : List String) (i : Nat) :
+    Except Json (List St × List String) :=
+  match steps with
+  | [] => .ok (states, labels)
+  | st :: rest =>
+    let started' := if st.kind == "start" then st.t :: started else started
+    let moved : List St :=
+      if st.kind == "start" then states
+      else states.filterMap fun s =>
+        let okPc := match (s.threads st.t).pc with
+          | .preparing _ => st.kind == "prep"
+          | .using _ _ => st.kind == "use"
+          | _ => false
+        if okPc then act s (.thr st.t st.ans) else none
+    let (cl, labels) := closure nQ started' moved [] [] labels
+    let keep := cl.filter fun s => gatesOf s started' == st.gates
+    if keep.isEmpty then
+      .error (Json.mkObj [("ok", Json.bool false), ("at", natJ i), ("why", Json.str "no model state has the observed parked goroutines"),
+        ("model_gates", Json.arr ((cl.map fun s => gatesJ (gatesOf s started')).eraseDups).toArray),
+        ("moved", natJ moved.length)])
+    else replay nQ rest keep started' labels (i + 1)
+
 def handleC14 (op : String) (args : Array Json) : Option Json := do
   match op with
+  | "sc.check" =>
+    let nV ← jNat? (arg args 1)
+    let nQ ← jNat? (arg args 2)
+    let ops ← (← jArr? (arg args 3)).toList.mapM parseOp
+    let steps ← (← jArr? (arg args 4)).toList.mapM parseStep
+    let fin := arg args 5
+    let res ← (← jArr? (fin.getObjValD "res")).toList.mapM jStr?
+    let closed ← (← jArr? (fin.getObjValD "closed")).toList.mapM jBool?
+    let preps ← (← jArr? (fin.getObjValD "preps")).toList.mapM jNat?
+    match replay nQ steps [init ops nV] [] [] 0 with
+    | .error j => some j
+    | .ok (states, labels) =>
+      let acc := states.filter fun s =>
+        resultsOf s == res && closedOf s == closed && (List.range nQ).map (prepTotal s) == preps
+      let flags (l : List St) : List (String × Json) :=
+        [("foreign", Json.bool (l.any fun s => foreignRemovals s > 0)),
+         ("leak", Json.bool (l.any fun s => (List.range s.nH).any (leakedB s))),
+         ("all_leak", Json.bool (l.all fun s => (List.range s.nH).any (leakedB s))),
+         ("stmt_closed", Json.bool (l.any fun s => (resultsOf s).contains "stmtClosed")),
+         ("quiescent", Json.bool (l.all quiescentB))]
+      if acc.isEmpty then
+        some (Json.mkObj ([("ok", Json.bool false), ("at", Json.str "final"),
+          ("why", Json.str "no model state has the observed results/closed handles/prepare counts"),
+          ("model_finals", Json.arr ((states.map (finalJ nQ)).eraseDups.take 12).toArray)] ++ flags states))
+      else
+        some (Json.mkObj ([("ok", Json.bool true), ("n", natJ states.length), ("deterministic", Json.bool (states.length == 1)),
+          ("labels", strListJ labels)] ++ flags acc))
+  | "sc.run" =>
+    -- ["sc.run", nV, nQ, threads, [[kind, id, ans]...]]: plain fine-grained run (kind: "thr" | "closeE" | "closeH")
+    let nV ← jNat? (arg args 1)
+    let nQ ← jNat? (arg args 2)
+    let ops ← (← jArr? (arg args 3)).toList.mapM parseOp
+    let acts ← (← jArr? (arg args 4)).toList.mapM fun j => do
+      let a ← jArr? j
+      let k ← jStr? (arg a 0)
+      let i ← jNat? (arg a 1)
+      match k with
+      | "thr" => some (Act.thr i (← parseAns (← jStr? (arg a 2))))
+      | "closeE" => some (Act.closeE i)
+      | "closeH" => some (Act.closeH i)
+      | _ => none
+    let s := run (init ops nV) acts
+    some (finalJ nQ s)
   | _ => none
 
 end Gorm.Drv
